@@ -512,6 +512,12 @@ func nikonNote(c *Ctx, rec *gen.Record) {
 		mk := []string{"Canon", "NIKON CORPORATION", "SONY", "Apple"}[y.Intn(4)]
 		rec.Make = &mk
 		rec.MakerNote = y.Sub().Bytes(1 + y.Intn(4))
+		if y.Bool() && mk != "Canon" {
+			// ... or is shorter than the 18-byte header a Nikon note begins with (not for Canon, whose
+			// note is a directory in the byte order of the file: the same bytes in an II and an MM
+			// file are not the same note)
+			rec.MakerNote = y.Sub().Bytes(5 + y.Intn(14))
+		}
 		c.Inc("probe:maker-note-that-fits-the-slot")
 		return
 	}
